@@ -57,6 +57,31 @@ type mismatch struct {
 
 func genOpts(rng *rand.Rand, tier string, mode string) sim.Opts {
 	o := sim.Opts{Seed: rng.Int63()}
+	if mode == "all" {
+		// the mix used by the registered checks
+		switch r := rng.Intn(100); {
+		case r < 35:
+			mode = "mixed"
+		case r < 65:
+			mode = "nodefuzz"
+		case r < 75:
+			mode = "snap"
+		case r < 85:
+			mode = "figure8"
+		case r < 90:
+			mode = "asynccrash"
+		case r < 93:
+			mode = "single"
+		case r < 96:
+			mode = "zero"
+		default:
+			mode = "converge"
+		}
+	}
+	if mode == "nodefuzz" {
+		o.Fuzz = 150 + rng.Intn(250)
+		return o
+	}
 	nv := []int{1, 2, 3, 3, 3, 3, 4, 5, 5}[rng.Intn(9)]
 	for i := 1; i <= nv; i++ {
 		o.Voters = append(o.Voters, uint64(i))
@@ -152,8 +177,13 @@ func genOpts(rng *rand.Rand, tier string, mode string) sim.Opts {
 
 // oneRun executes a run, compares with the model, and returns the result.
 func oneRun(o sim.Opts, useModel bool) runResult {
-	c := sim.NewCluster(o)
-	c.Run()
+	var c *sim.Cluster
+	if o.Fuzz > 0 {
+		c = sim.FuzzNode(o.Seed, o.Fuzz)
+	} else {
+		c = sim.NewCluster(o)
+		c.Run()
+	}
 	rr := runResult{Opts: o, Violations: c.Violations, Lines: len(c.Rec.Lines), Stats: c.Stats}
 	if !useModel {
 		return rr
@@ -194,8 +224,15 @@ func oneRun(o sim.Opts, useModel bool) runResult {
 // explain re-runs with full texts and a verbose driver to localise the first difference.
 func explain(o sim.Opts, line int) *mismatch {
 	o.KeepText = true
-	c := sim.NewCluster(o)
-	c.Run()
+	var c *sim.Cluster
+	if o.Fuzz > 0 {
+		sim.FuzzKeepText = true
+		c = sim.FuzzNode(o.Seed, o.Fuzz)
+		sim.FuzzKeepText = false
+	} else {
+		c = sim.NewCluster(o)
+		c.Run()
+	}
 	lines := append([]string{"verbose 1"}, c.Rec.Lines...)
 	out, _ := model.Run(lines)
 	mm := &mismatch{Line: line}
@@ -273,7 +310,7 @@ func main() {
 	noModel := flag.Bool("nomodel", false, "skip the model comparison")
 	trace := flag.Bool("trace", false, "print the environment trace of a replay")
 	child := flag.Bool("child", false, "internal: run as worker, print one JSON line per run")
-	mode := flag.String("mode", "mixed", "mixed|converge|asynccrash|single|zero|snap|figure8")
+	mode := flag.String("mode", "all", "mixed|converge|asynccrash|single|zero|snap|figure8|nodefuzz")
 	corpus := flag.String("corpus", "", "directory of replay files to run first (minimised past findings)")
 	flag.Parse()
 
@@ -282,9 +319,9 @@ func main() {
 		return
 	}
 	if *runs == 0 {
-		*runs = 240
+		*runs = 480
 		if *tier == "thorough" {
-			*runs = 6000
+			*runs = 12000
 		}
 	}
 	if *child {
@@ -304,7 +341,7 @@ func main() {
 		*workers = min(runtime.NumCPU(), 16)
 	}
 	res := report.New("sim/"+*mode, *tier, *seed)
-	res.Rule = "random environment schedules over real RawNodes (1-5 voters, 0-2 learners, sync/async storage, PreVote/CheckQuorum incl. mixed, size limits, crashes at the Ready sub-steps, partitions, loss/dup/reorder, conf changes, compaction+snapshots, transfers, reads); each run's per-node op stream is replayed through the Lean model and output+state digests compared per op; non-trivial = a run in which some node became leader and some entry was applied; distinct = distinct option/seed combinations"
+	res.Rule = "random environment schedules over real RawNodes (1-5 voters, 0-2 learners, sync/async storage, PreVote/CheckQuorum incl. mixed, size limits, crashes at the Ready sub-steps, partitions, loss/dup/reorder, conf changes, compaction+snapshots, transfers, reads); each run's per-node op stream is replayed through the Lean model and output+state digests compared per op; plus single-node fuzzing from random storages with messages of every type around the node's term/log (model comparison only, no monitors); non-trivial = a cluster run in which votes and appends were delivered, or a fuzz run longer than 20 operations; distinct = distinct option/seed combinations"
 	self, _ := os.Executable()
 	var mu sync.Mutex
 	var wg sync.WaitGroup
@@ -395,8 +432,11 @@ func summarise(res *report.Result, all []runResult, expected int) {
 		if rr.Stats["deliver_MsgSnap"] > 0 {
 			res.Stats["runs_with_snapshot"]++
 		}
-		if rr.Stats["deliver_MsgVoteResp"] > 0 && rr.Stats["deliver_MsgApp"] > 0 {
+		if (rr.Stats["deliver_MsgVoteResp"] > 0 && rr.Stats["deliver_MsgApp"] > 0) || (rr.Opts.Fuzz > 0 && rr.Lines > 20) {
 			res.Distinct++
+		}
+		if rr.Opts.Fuzz > 0 {
+			res.Stats["runs_nodefuzz"]++
 		}
 		if len(res.Samples) < 3 {
 			b, _ := json.Marshal(rr.Opts)
